@@ -36,8 +36,8 @@ theorem newReader_err (cfgCap : Nat) (hcfg : cfgCap = 0 ∨ (4096 ≤ cfgCap ∧
     (batch cfgCap single inp).status.cls = (statusOfR st).cls ∧ (batch cfgCap single inp).out = ByteArray.empty := by
   obtain ⟨e1, e2⟩ := batch_eq cfgCap single inp
   rw [e1, e2]
-  unfold newReader newStreamReader at h
-  simp only at h
+  unfold newReader newReaderE newStreamReaderE at h
+  simp only [Bool.false_eq_true, if_false, ofStatusE_false] at h
   rw [if_neg (by omega)] at h
   unfold bx
   cases hh : readStreamHeader inp 0 with
